@@ -118,6 +118,22 @@ def run(ctx):
     n = 20 if ctx.quick else 240
     cases = rescorr.gen_cases(rng, n, ctx.quick) + relaxation_cases(ctx, rng)
     impls = [rescorr.run_impl(c) for c in cases]
+    # wells simulated at the same time in different threads (one worker per well, same node count, different grids and pressures):
+    # every clause must hold for each of them exactly as when they are simulated one after the other
+    tbw = rescorr.make_table("shipped", rng, True)
+    conc_cases = []
+    for j_ in range(4):
+        conc_cases.append(dict(kind="single" if j_ % 2 == 0 else "ideal", table=tbw, table_kind="shipped", pi=float(tbw["pressure"][-2 - j_]), pf=float(tbw["pressure"][2 + 3 * j_]),
+                               nx=40, times=rescorr.time_grid(["quadratic", "geometric", "uniform", "random"][j_], 60 + 20 * j_, 2.0 + j_, rng), grid="concurrent"))
+    conc_serial = [rescorr.run_impl(c) for c in conc_cases]
+    for c_, im_ in zip(conc_cases, rescorr.run_threaded(conc_cases) + rescorr.run_threaded(conc_cases)):
+        for v in conclusions(c_, im_):
+            if v.get("key") in ("time-monotone",):
+                continue
+            ctx.violations.append(dict(what=v["what"] + " (wells simulated concurrently in threads)", key="threads" + v["what"], input=dict(**rescorr.replay_payload(c_), simulated="concurrently with 3 other wells of the same node count, one thread each"), observed=v))
+    rescorr.threaded_equals_serial(conc_cases, conc_serial, lambda c_, obs: ctx.violations.append(dict(
+        what="a simulation that runs while others run in other threads (own objects, own arrays, same node count) differs from the same simulation run alone", key="threads-differ",
+        input=dict(**rescorr.replay_payload(c_), simulated="concurrently with 3 other wells, one thread each"), observed=obs)), rounds=1)
     steps = 0
     for c, im in zip(cases, impls):
         for v in conclusions(c, im):
